@@ -2,6 +2,8 @@ import Astisub.Driver.Ops
 import Astisub.Driver.Ts
 import Astisub.Driver.IO
 import Astisub.Driver.LinCorr
+import Astisub.Driver.Lib
+import Astisub.Driver.SRT
 
 open Astisub Astisub.Driver Astisub.Proto
 
@@ -13,6 +15,8 @@ def handleLine (line : String) : Verdict :=
   | op :: args =>
     if op == "ops.lincorr" || op == "lib.f53" then handleLinCorr op args impl
     else if op.startsWith "ops." then handleOps3 op args impl
+    else if op == "lib.html" then handleLib op args impl
+    else if op.startsWith "srt." then handleSRT op args impl
     else if op.startsWith "ts." then handleTs op args impl
     else if op.startsWith "io." || op == "lib.scanner" then handleIO op args impl
     else .bad s!"unknown stream {op}"
@@ -23,6 +27,7 @@ structure Stats where
   disOk : Nat := 0
   disFail : Nat := 0
   bad : Nat := 0
+  unmod : Nat := 0
 
 partial def loop (h : IO.FS.Stream) (out : IO.FS.Stream) (st : Stats) (n : Nat) : IO Stats := do
   let line ← h.getLine
@@ -30,6 +35,7 @@ partial def loop (h : IO.FS.Stream) (out : IO.FS.Stream) (st : Stats) (n : Nat) 
   if line.trimAscii.toString.isEmpty then loop h out st (n + 1) else
   match handleLine line with
   | .agree => loop h out { st with total := st.total + 1, agree := st.agree + 1 } (n + 1)
+  | .unmodelled => loop h out { st with total := st.total + 1, unmod := st.unmod + 1 } (n + 1)
   | .disagree ok m =>
     out.putStrLn s!"DIS {n} spec={if ok then "pass" else "fail"} model={m}"
     let st := if ok then { st with disOk := st.disOk + 1 } else { st with disFail := st.disFail + 1 }
@@ -42,5 +48,5 @@ def main : IO UInt32 := do
   let stdin ← IO.getStdin
   let stdout ← IO.getStdout
   let st ← loop stdin stdout {} 0
-  stdout.putStrLn s!"SUMMARY total={st.total} agree={st.agree} dis_spec_pass={st.disOk} dis_spec_fail={st.disFail} bad={st.bad}"
+  stdout.putStrLn s!"SUMMARY total={st.total} agree={st.agree} dis_spec_pass={st.disOk} dis_spec_fail={st.disFail} bad={st.bad} unmodelled={st.unmod}"
   return 0
